@@ -1,7 +1,7 @@
 (* C16 — lemmas about coq/C16/Model.v, part B: global invariants over every schedule, sequential runs, witnesses *)
 From Coq Require Import List Arith Bool Lia.
 Import ListNotations.
-From GU Require Import C16.Model C16.ProofsA.
+From GU Require Import C16.Model C16.ProofsBase C16.ProofsA C16.ProofsS C16.ProofsF C16.ProofsL C16.ProofsI C16.ProofsJ.
 
 (* ------------------------------------------------------------------------------------------------ *)
 (* global invariant over every schedule                                                               *)
@@ -210,3 +210,127 @@ Lemma nonvacuous_interleaving :
   let st := run P (init_state P nv_ops) nv_sched in
   map c_pc (s_cl st) = [Done Ok; Done Ok; Done Ok] /\ option_map c_dest (nth_error (s_cl st) 2) = Some (DInst 0).
 Proof. vm_compute. split; reflexivity. Qed.
+
+(* ------------------------------------------------------------------------------------------------ *)
+(* a successful Store is what later Fetches return (mutable cache)                                    *)
+
+Inductive call := CFetch (c : nat) (fs : list fault) | CClean (c : nat) (fs : list fault).
+
+(* later calls, one after the other, each by a fresh client and with an arbitrary fault (or none) at every step *)
+Fixpoint run_calls (P : params) (R : remote) (calls : list call) : remote * list client :=
+  match calls with
+  | [] => (R, [])
+  | k :: r =>
+      let '(R', L') := match k with
+                       | CFetch c fs => run_faults P c fs R (new_client P OFetch)
+                       | CClean c fs => run_faults P c fs R (new_client P OClean)
+                       end in
+      let '(R'', ls) := run_calls P R' r in (R'', L' :: ls)
+  end.
+
+Lemma run_calls_visible : forall P v calls R,
+  p_kind P = Mutable -> content Cache R = Some (full P v) -> r_dir R = true ->
+  let '(R2, Ls) := run_calls P R calls in
+  content Cache R2 = Some (full P v) /\ r_dir R2 = true /\
+  forall L, In L Ls -> fetch_ok L = true -> c_dest L = DInst v.
+Proof.
+  intros P v calls. induction calls as [|k r IH]; intros R HK Hc Hd; simpl.
+  - repeat split; auto. intros L [].
+  - destruct k as [c fs|c fs].
+    + pose proof (fetch_run_FI P v HK c fs R (new_client P OFetch) eq_refl (FI_init P v R Hc)) as HF.
+      pose proof (run_keeps P HK c fs R (new_client P OFetch) (or_introl eq_refl)) as [K1 K2].
+      destruct (run_faults P c fs R (new_client P OFetch)) as [R' L'] eqn:E. simpl in *.
+      specialize (IH R' HK). rewrite K1, K2 in IH. specialize (IH Hc Hd).
+      destruct (run_calls P R' r) as [R'' ls]. destruct IH as (A & B & C). repeat split; auto.
+      intros L [<-|HL] Hf; [|auto].
+      destruct HF as (_ & _ & _ & _ & HD). unfold fetch_ok in Hf.
+      destruct (c_op L'); try discriminate. destruct (c_pc L') as [| | | | | | | | | | | | | | | | | | | | | | | | | | | | | | | | | | | [|] | ]; try discriminate. exact HD.
+    + pose proof (run_keeps P HK c fs R (new_client P OClean) (or_intror eq_refl)) as [K1 K2].
+      assert (Ho : c_op (snd (run_faults P c fs R (new_client P OClean))) = OClean).
+      { clear. generalize (new_client P OClean) (eq_refl : c_op (new_client P OClean) = OClean). revert R.
+        induction fs as [|f r' IHf]; intros R L Ho; simpl; auto.
+        destruct (step P c f R L) as [R' L'] eqn:Hs. apply IHf. rewrite (step_op _ _ _ _ _ _ _ Hs). exact Ho. }
+      destruct (run_faults P c fs R (new_client P OClean)) as [R' L'] eqn:E. simpl in *.
+      specialize (IH R' HK). rewrite K1, K2 in IH. specialize (IH Hc Hd).
+      destruct (run_calls P R' r) as [R'' ls]. destruct IH as (A & B & C). repeat split; auto.
+      intros L [<-|HL] Hf; [|auto]. unfold fetch_ok in Hf. rewrite Ho in Hf. discriminate.
+Qed.
+
+Lemma store_success_visible_mutable_l : forall P v u c fs R calls,
+  p_kind P = Mutable -> p_rehash P = true ->
+  let '(R1, L1) := run_faults P c fs R (new_client P (OStore v u)) in
+  c_pc L1 = Done Ok ->
+  r_lock R1 = LFree /\
+  let '(R2, Ls) := run_calls P R1 calls in
+  (forall L, In L Ls -> fetch_ok L = true -> c_dest L = DInst v) /\
+  (r_lock R2 = LFree -> forall c',
+     let L' := snd (run_faults P c' (repeat NoF 12) R2 (new_client P OFetch)) in
+     c_pc L' = Done Ok /\ c_dest L' = DInst v).
+Proof.
+  intros P v u c fs R calls HK HR.
+  pose proof (store_success_leaves_complete_package_l P v u c fs R HK) as HS.
+  destruct (run_faults P c fs R (new_client P (OStore v u))) as [R1 L1].
+  intros E. destruct (HS E) as (Hd & Hc & Hl). split; auto.
+  pose proof (run_calls_visible P v calls R1 HK Hc Hd) as HV.
+  destruct (run_calls P R1 calls) as [R2 Ls]. destruct HV as (A & B & C). split; auto.
+  intros Hf c'. apply (fetch_live P v HK HR c' R2); auto.
+Qed.
+
+(* ------------------------------------------------------------------------------------------------ *)
+(* a successful Store is what later Fetches return (immutable cache)                                  *)
+
+Fixpoint run_fetches (P : params) (R : remote) (calls : list (nat * list fault)) : remote * list client :=
+  match calls with
+  | [] => (R, [])
+  | (c, fs) :: r =>
+      let '(R', L') := run_faults P c fs R (new_client P OFetch) in
+      let '(R'', ls) := run_fetches P R' r in (R'', L' :: ls)
+  end.
+
+Lemma fetch_run_dir : forall P c fs R L, c_op L = OFetch -> r_dir (fst (run_faults P c fs R L)) = r_dir R.
+Proof.
+  intros P c fs. induction fs as [|f r IH]; intros R L Ho; simpl; auto.
+  destruct (step P c f R L) as [R' L'] eqn:Hs.
+  rewrite <- (fetch_step_dir P c f R L R' L' Ho Hs). apply IH.
+  rewrite (step_op _ _ _ _ _ _ _ Hs). exact Ho.
+Qed.
+
+Lemma run_fetches_visible : forall P v u calls R,
+  p_kind P = Immutable -> content (Pkg u) R = Some (full P v) -> newest u R -> r_dir R = true ->
+  let '(R2, Ls) := run_fetches P R calls in
+  content (Pkg u) R2 = Some (full P v) /\ newest u R2 /\ r_dir R2 = true /\
+  forall L, In L Ls -> fetch_ok L = true -> c_dest L = DInst v.
+Proof.
+  intros P v u calls. induction calls as [|[c fs] r IH]; intros R HK Hc Hn Hd; simpl.
+  - repeat split; auto. intros L [].
+  - pose proof (fetch_run_FIi P v u HK c fs R (new_client P OFetch) eq_refl (FIi_init P v u R Hc Hn)) as HF.
+    pose proof (fetch_run_dir P c fs R (new_client P OFetch) eq_refl) as K2.
+    destruct (run_faults P c fs R (new_client P OFetch)) as [R' L'] eqn:E. simpl in *.
+    destruct HF as (A1 & A2 & _ & _ & _ & _ & HD).
+    specialize (IH R' HK A1 A2). rewrite K2 in IH. specialize (IH Hd).
+    destruct (run_fetches P R' r) as [R'' ls]. destruct IH as (A & B & C & D). repeat split; auto.
+    intros L [<-|HL] Hf; [|auto]. unfold fetch_ok in Hf.
+    destruct (c_op L'); try discriminate. destruct (c_pc L') as [| | | | | | | | | | | | | | | | | | | | | | | | | | | | | | | | | | | [|] | ]; try discriminate. exact HD.
+Qed.
+
+Lemma store_success_visible_immutable_l : forall P v u c fs R calls,
+  p_kind P = Immutable -> p_rehash P = true ->
+  let '(R1, L1) := run_faults P c fs R (new_client P (OStore v u)) in
+  c_pc L1 = Done Ok ->
+  content (Pkg u) R1 = Some (full P v) /\
+  (newest u R1 ->
+   let '(R2, Ls) := run_fetches P R1 calls in
+   (forall L, In L Ls -> fetch_ok L = true -> c_dest L = DInst v) /\
+   (forall c', let L' := snd (run_faults P c' (repeat NoF 12) R2 (new_client P OFetch)) in
+               c_pc L' = Done Ok /\ c_dest L' = DInst v)).
+Proof.
+  intros P v u c fs R calls HK HR.
+  pose proof (immutable_store_success_leaves_complete_package P v u c fs R HK) as HS.
+  pose proof (store_success_dir P v u c fs R) as HD.
+  destruct (run_faults P c fs R (new_client P (OStore v u))) as [R1 L1].
+  intros E. specialize (HS E). specialize (HD E). split; auto.
+  intros Hn.
+  pose proof (run_fetches_visible P v u calls R1 HK HS Hn HD) as HV.
+  destruct (run_fetches P R1 calls) as [R2 Ls]. destruct HV as (A & B & C & D). split; auto.
+  intros c'. apply (fetch_live_imm P v u HK HR c' R2); auto.
+Qed.
